@@ -11,7 +11,8 @@
 //!          | "attr" v a | "keys" v | "call" v
 //!          | "for" v k strs.. nitems items.. | "inmac" m arg str nitems items..
 //!
-//! Result: `ok:<output>` | `err:<kind chain>` | `panic` | `hang` | `crash:<status>` | `syntax:<kind>`.
+//! Result: `ok:<output>` | `err:<kind chain>` | `panic` | `hang` | `crash:<status>` | `syntax:<kind>`
+//! | `skipped` (after three hangs the remaining cases are not run).
 //! The kind chain is `K1>K2>…` (outermost first); chains longer than 24 (recursion limit hit by a
 //! cycle; where exactly the limit strikes is not part of the comparison) are printed as the first
 //! 12 kinds, `...`, and the innermost kind.
@@ -440,7 +441,8 @@ const AUX_P: usize = 3; // base of AUX_Q
 const AUX_M: usize = 4; // module: top-level set/macro + scoped sets
 const AUX_S: usize = 5; // super() at top level
 const AUX_I: usize = 6; // includes AUX_X, sets v6 at top level
-const AUX_N: usize = 7; // number of aux templates; len+AUX_N.. are missing names
+const AUX_E: usize = 7; // module whose block body includes a missing template
+const AUX_N: usize = 8; // number of aux templates; len+AUX_N.. are missing names
 
 fn aux_templates(len: usize) -> Vec<Tmpl> {
     let root = len - 1;
@@ -497,11 +499,16 @@ fn aux_templates(len: usize) -> Vec<Tmpl> {
         ],
         blocks: BTreeMap::new(),
     });
+    // E
+    let mut e = Tmpl::default();
+    e.layout = vec![tx("E:t".into()), CallBlock(7), SetVar(2, "E2".into())];
+    e.blocks.insert(7, vec![tx("E:b7".into()), Incl { names: vec![len + AUX_N], ign: false }]);
+    v.push(e);
     v
 }
 
 /// a snippet of items exercising include/import (index into a fixed menu)
-const N_SNIPPETS: usize = 24;
+const N_SNIPPETS: usize = 27;
 fn snippet(k: usize, len: usize) -> Vec<Item> {
     let a = |x: usize| len + x;
     let miss = len + AUX_N;
@@ -529,6 +536,9 @@ fn snippet(k: usize, len: usize) -> Vec<Item> {
         20 => vec![ImportAs(a(AUX_Q), 8), Text("[".into()), EmitKeys(8), Text("]".into())],
         21 => vec![FromImport(a(AUX_S), 2, 7)],
         22 => vec![Incl { names: vec![], ign: false }],
+        23 => vec![FromImport(a(AUX_E), 2, 7), EmitVar(7)],
+        24 => vec![ImportAs(a(AUX_E), 8), EmitAttr(8, 2)],
+        25 => vec![Incl { names: vec![a(AUX_E)], ign: true }],
         _ => vec![Incl { names: vec![a(AUX_Q)], ign: false }, Incl { names: vec![a(AUX_X)], ign: false }],
     }
 }
@@ -924,7 +934,16 @@ fn supervise(tier: &str) {
     let mut stdout = std::io::BufWriter::new(stdout.lock());
     let mut next = 0usize;
     let mut restarts = 0;
+    let mut hangs = 0;
     while next < total {
+        if hangs >= 3 {
+            // the engine hangs again and again: every further hang would cost the full timeout
+            while next < total {
+                writeln!(stdout, "{}\tskipped\tskipped-after-3-hangs", lines[next]).unwrap();
+                next += 1;
+            }
+            break;
+        }
         let mut child = Command::new(std::env::current_exe().unwrap())
             .args(["work", tier, &next.to_string()])
             .stdin(Stdio::null())
@@ -947,7 +966,7 @@ fn supervise(tier: &str) {
             }
         });
         loop {
-            match rxc.recv_timeout(Duration::from_secs(20)) {
+            match rxc.recv_timeout(Duration::from_secs(10)) {
                 Ok(l) => {
                     writeln!(stdout, "{l}").unwrap();
                     next += 1;
@@ -955,6 +974,7 @@ fn supervise(tier: &str) {
                 Err(mpsc::RecvTimeoutError::Timeout) => {
                     let _ = child.kill();
                     let _ = child.wait();
+                    hangs += 1;
                     if next < total {
                         writeln!(stdout, "{}\thang\thang", lines[next]).unwrap();
                         next += 1;
